@@ -24,7 +24,8 @@ RULE = (
     "value, a group member value or late (offset 79..299) in a long value: Codec.encode output (ASCII inputs) and the exact bytes a real logged-on "
     "connection (both roles) hands to writer.write through send_msg are checked by the independent reference framer "
     "(BeginString, BodyLength, MsgType first and in order; three-digit CheckSum last; BodyLength = byte count; CheckSum = byte "
-    "sum mod 256). A message that cannot be framed must be refused: exception, nothing written, no journal row, outbound "
+    "sum mod 256); plus, seed-independent: a non-ASCII character in every plain tag of the tag enum in turn, the same message object "
+    "sent again after a nested group member was made non-ASCII, and non-ASCII CompIDs. A message that cannot be framed must be refused: exception, nothing written, no journal row, outbound "
     "counter unchanged; an ASCII message must not be refused. (b) History level: every frame written by the endpoint in "
     "generated session histories (C05's operation lists: logon, sends of all classes, test requests, peer ResendRequests with "
     "replays and gap fills, gaps, logouts on too-low numbers, breaks and reconnects; C06's journals x resend ranges; heartbeat "
@@ -154,6 +155,85 @@ def send_shard(acc, n, seed, role):
         sb.b.close()
 
 
+def special_shard(acc, role):
+    """Seed-independent corners of the refusal: (1) a non-ASCII character in EVERY plain tag of the tag enum in turn (a
+    refusal that depends on how single tags are rendered must not have blind spots), top level and inside a group item;
+    (2) the same message OBJECT sent again after a nested group member was changed to non-ASCII; (3) non-ASCII CompIDs."""
+    from asyncfix import FMsg
+    from asyncfix.journaler import Journaler
+    from asyncfix.message import FIXMessage
+    from vlib.simnet import World
+
+    sb = SendBench(role)
+    try:
+        for i, tag in enumerate(G.PLAIN_TAGS + ["5001", "20001"]):
+            sb.fresh_if_needed(role)
+            ch = NONASCII[i % len(NONASCII)]
+            case = {"msgtype": "D", "mode": "normal", "body": [("f", "11", f"t{i}"), ("f", tag, "v" + ch)] if tag != "11" else [("f", "11", "v" + ch)],
+                    "sender": "CLI", "target": "SRV", "next_out": 1, "carried": 1}
+            judge_send(acc, sb, role, case, True)
+            acc.case(("tag-sweep", role, tag), cls=["send/tag-sweep", "non-ascii-input"])
+        # (2) mutate-and-resend the same object
+        for k, (gtag, members) in enumerate([("453", ["448", "447", "452"]), ("555", ["600", "624"]), ("78", ["79", "80"])]):
+            for depth in (0, 1):
+                sb.fresh_if_needed(role)
+                b = sb.b
+                ep = b.ep
+                msg = FIXMessage(FMsg.NEWORDERSINGLE, {11: f"m{k}{depth}", 55: "SYM"})
+                msg.set_group(gtag, [{members[0]: "a", members[1]: "b"}, {members[0]: "c", members[1]: "d"}])
+                if depth:
+                    msg.get_group_list(gtag)[1].set_group("802", [{"523": "inner", "803": "1"}])
+                w = b.link.writers[b.side]
+                r1 = b.w.call(ep.send_msg(msg))
+                str(msg), repr(msg)
+                if depth:
+                    msg.get_group_list(gtag)[1].get_group_list("802")[0].set("523", "inn\u00e9r", replace=True)
+                else:
+                    msg.get_group_list(gtag)[1].set(members[1], "d\u00e9", replace=True)
+                w0, n0 = len(w.written), ep._session.next_num_out
+                r2 = b.w.call(ep.send_msg(msg))
+                case = {"resend_object": gtag, "depth": depth, "role": role}
+                frames = [x for _, x in w.written[w0:]]
+                for fr in frames:
+                    why = ref_check_frame(fr)
+                    if why:
+                        acc.violation(f"C02:send/malformed-frame/non-ascii/{why.split(':')[0]}/object-resent-after-mutation",
+                                      f"the message object was sent once, a nested group member was then set to a non-ASCII value and the object sent again: {why}; frame={fr[:200]!r}", case)
+                if r2[0] == "exc" and (frames or ep._session.next_num_out != n0):
+                    acc.violation("C02:send/refused-but-written", f"second send raised {type(r2[1]).__name__} but wrote {len(frames)} frame(s) / moved the counter", case)
+                acc.case(("resend-object", role, gtag, depth), cls=["send/object-resent-after-mutation", "non-ascii-input"])
+    finally:
+        sb.b.close()
+    # (3) CompIDs
+    for sender, target in (("CL\u00cd", "SRV"), ("CLI", "SR\u00dc"), ("\u540d", "SRV")):
+        w = World()
+        try:
+            if role == "initiator":
+                ep = w.make_client(journal=Journaler(), sender=sender, target=target)
+                w.connect_client()
+                side = "c"
+            else:
+                ep = w.make_server(journal=Journaler(), sender=sender, target=target)
+                w.attach_server_only()
+                side = "s"
+            wr = w.link.writers[side]
+            n0 = ep._session.next_num_out
+            r = w.call(ep.send_msg(FIXMessage(FMsg.LOGON, {98: 0, 108: 30})))
+            case = {"compids": [sender, target], "role": role}
+            frames = [x for _, x in wr.written]
+            for fr in frames:
+                why = ref_check_frame(fr)
+                if why:
+                    acc.violation(f"C02:send/malformed-frame/non-ascii-compid/{why.split(':')[0]}", f"CompIDs {sender!r}/{target!r}: {why}; frame={fr[:200]!r}", case)
+            if r[0] == "exc" and (frames and not all(ref_check_frame(f) is None for f in frames)):
+                pass
+            if r[0] == "exc" and ep._session.next_num_out != n0 and not frames:
+                acc.violation("C02:send/refused-but-number-consumed", f"CompIDs {sender!r}/{target!r}: send raised {type(r[1]).__name__}, next_num_out {n0} -> {ep._session.next_num_out}", case)
+            acc.case(("compid", role, sender, target), cls=["send/non-ascii-compid", "non-ascii-input"])
+        finally:
+            w.close()
+
+
 class _FixedDT(__import__("datetime").datetime):
     @classmethod
     def utcnow(cls):
@@ -262,6 +342,7 @@ def plan(tier, seed):
     for i in range(3 if not th else 8):
         jobs.append(("history_shard", {"n": 100 if not th else 3000, "seed": derive_seed(seed, PROPERTY, "hist", i), "maxlen": 25 if not th else 60}))
     jobs.append(("resend_shard", {"seed": seed}))
+    jobs += [("special_shard", {"role": r}) for r in ("acceptor", "initiator")]
     return jobs
 
 
@@ -270,6 +351,9 @@ def _retuple(body):
 
 
 def replay(acc, case):
+    if "resend_object" in case or "compids" in case:
+        special_shard(acc, case["role"])
+        return
     if "history_frame" in case:
         why = ref_check_frame(case["history_frame"])
         if why:
